@@ -130,12 +130,18 @@ def hand_fold(texts_sorted, strict):
     warns, failures, err = [], 0, None
     for t in rest:
         mo = impl.load(t)
+        snap_tree, snap = TJ.to_tree(ro.xml), None
         with warnings.catch_warnings(record=True) as w:
             warnings.simplefilter('always')
             try:
+                snap = str(ro)
                 ro += mo
             except exc.MosRoMgrException as e:
-                # a message that fails to merge: whatever class of the library's own hierarchy it raises
+                # a message that fails to merge: whatever class of the library's own hierarchy it raises.
+                # "Skipped" / "holds the result of all earlier messages": the reference continues from the
+                # state before the failed message, whatever the failed merge left behind.
+                if TJ.to_tree(ro.xml) != snap_tree:
+                    ro = impl.load(snap)
                 failures += 1
                 warns += impl.lib_warnings(w)
                 if strict:
